@@ -2,6 +2,7 @@
 
 pub mod c01;
 pub mod c02;
+pub mod c05;
 pub mod c06;
 pub mod c08;
 pub mod c09;
@@ -62,6 +63,7 @@ pub fn all() -> Vec<Box<dyn Check>> {
     v.push(Box::new(c01::C01 { family: "c01_net_noisy_prelude", skew: true, noisy: true, quick_runs: 1000, thorough_runs: 40000 }));
     v.push(Box::new(c02::C02 { family: "c02_closed_loop_fault_free", faults: false, quick_runs: 3000, thorough_runs: 100_000 }));
     v.push(Box::new(c02::C02 { family: "c02_closed_loop_faults_then_quiet", faults: true, quick_runs: 1000, thorough_runs: 50_000 }));
+    v.push(Box::new(c05::C05));
     v.push(Box::new(c06::C06));
     v.push(Box::new(c08::C08Driver));
     v.push(Box::new(c09::C09));
@@ -128,6 +130,9 @@ pub fn extras(property: &str) -> EvidenceExtras {
         "C02" => {
             e.rule = "each run = one closed loop (statime master or scripted one-step master <-> statime slave with the real Kalman servo acting on a simulated oscillator) at one point of the parameter box (offset +-10 s, drift +-150 ppm, delay 1-400 us, jitter 0-20 us, sync/delay interval 2^-3..2^1 s, timestamp quantum 0/1/8 ns); non-trivial = the port became slave and the bound was evaluated after the settle time; distinct = distinct (parameter class, state-transition sequence) fingerprint".into();
             e.assumptions.push("bound B = max(1 us, 1.5 J + 2 q); settle time 60 s + 150 I + 250 I^2/s calibrated on the unchanged tree with a margin >= 2x and frozen".into());
+        }
+        "C05" => {
+            e.rule = "each run = one instance (1-3 ports, own attributes from small domains, slave-only / master-only flags, prior port states Listening / Master by timeout / Slave-Passive by an earlier BMCA round / Faulty by a two-responder Pdelay exchange) and up to three scripted masters (grandmaster attributes and stepsRemoved 0,1,2,3,254 from small domains, sender identity below / above / between / same clock other port, on tape-chosen ports) each delivering two Announces in a tape-chosen interleaving, then PtpInstance::bmca; the resulting port states and data sets are compared with the reference implementation of Figures 33-35 and with the outcome of a second interleaving; non-trivial = every run; distinct = (decision vector, prior states, flags) fingerprint".into();
         }
         "C06" => {
             e.rule = "each run = one ordinary clock (normal, clockClass<128 or slave-only) and 1-3 (one run in 12: nine) scripted masters whose Announce arrivals over 16 intervals are drawn per interval from {present, absent, duplicated with the same sequenceId, stale sequenceId, two delivered out of order}, sequence ids straddling 65535->0, stepsRemoved 254/255/300, one master bearing the instance's own clock identity; BMCA phase from the tape; after every BMCA run the observed parent is checked against an arrival-time model (necessary, sufficient, expiry); non-trivial = the port was slave at some BMCA run; distinct = arrival-pattern fingerprint".into();
